@@ -15,6 +15,7 @@ import CV.CallGraph
 import CV.CSemParse
 import CV.GenFlat
 import CV.GenStruct
+import CV.Valid
 namespace CV
 
 
@@ -456,6 +457,34 @@ def handle (st : DState) (line : String) : DState × String :=
            ["X=" ++ toString σ.x.toNat, "Y=" ++ toString σ.y.toNat]))
        | none => (st, "fuel"))
     | _, _ => (st, "badreq")
+  -- validate <progA> <progB> <fnhex> : the translation validator on function fn of two loaded programs
+  --   (A = before optimisation, B = after); answers `ok accepted <removed>` | `ok rejected <pos>` | `nofn`
+  | "validate" :: ida :: idb :: fnh :: _ =>
+    let toV : Array RLine → Valid.VCode := fun code =>
+      (code.toList.zipIdx).map fun (l, i) =>
+        match l with
+        | .label s => Valid.VLine.lab s
+        | .skip => .dummy
+        | .bad _ => .ext i
+        | .ins mn o _ _ =>
+          if mn.isCondBranch then (match o with | .lbl t => .br mn t | _ => .ext i)
+          else if mn == .JMP then (match o with | .lbl t => .jmp t | _ => .ext i)
+          else if mn == .RTS then .rts
+          else if Valid.supported mn then (match o with | .lbl _ => .ext i | _ => .ins mn o)
+          else .ext i
+    match unhexStr fnh with
+    | none => (st, "badreq")
+    | some fname =>
+      let pa := st.get ida
+      let pb := st.get idb
+      match pa.fns.find? (·.name == fname), pb.fns.find? (·.name == fname) with
+      | some fa, some fb =>
+        let a := toV fa.code
+        let b := toV fb.code
+        let removed := (a.zip b).filter (fun p => p.1 != p.2) |>.length
+        if Valid.validate a b then (st, s!"ok accepted {removed}")
+        else (st, s!"ok rejected {(Valid.firstBad a b).getD 99999} {removed}")
+      | _, _ => (st, "nofn")
   -- branch <line tokens>
   | "branch" :: toks =>
     match codeOfTokens toks with
